@@ -11,6 +11,7 @@
 #include <core/sync.h>
 
 #include <core/core.h>
+#include <verif_hooks.h>
 
 /**
  * @brief Synchronizes threads on a barrier
@@ -24,20 +25,24 @@ bool sync_thread_barrier(void)
 	static __thread unsigned phase;
 	static atomic_uint cs[2]; // FIXME: this makes this barrier stateful with respect to the threads used
 	atomic_uint *c = cs + (phase & 1U);
+	VH(VH_BARRIER_ENTER, NULL, phase, 0);
 
 	if(phase & 2U) {
 		l = atomic_fetch_add_explicit(c, -1, memory_order_acq_rel) == 1;
 		do {
 			r = atomic_load_explicit(c, memory_order_relaxed);
+			VH(VH_BARRIER_SPIN, NULL, 1, r);
 		} while(r);
 	} else {
 		l = !atomic_fetch_add_explicit(c, 1, memory_order_acq_rel);
 		rid_t thr_cnt = global_config.n_threads;
 		do {
 			r = atomic_load_explicit(c, memory_order_relaxed);
+			VH(VH_BARRIER_SPIN, NULL, 0, r);
 		} while(r != thr_cnt);
 	}
 
 	phase = (phase + 1) & 3U;
+	VH(VH_BARRIER_EXIT, NULL, l, 0);
 	return l;
 }
